@@ -242,11 +242,17 @@ namespace nmtools::utl
         reference at(size_type i)
         {
             // TODO: assert/throw
+            #ifdef NMTOOLS_VERIF
+            NMTOOLS_VERIF_CHECK( ((nm_size_t)i >= (nm_size_t)size_), 3, i, size_ );
+            #endif // NMTOOLS_VERIF
             return buffer_[i];
         }
 
         const_reference at(size_type i) const
         {
+            #ifdef NMTOOLS_VERIF
+            NMTOOLS_VERIF_CHECK( ((nm_size_t)i >= (nm_size_t)size_), 3, i, size_ );
+            #endif // NMTOOLS_VERIF
             return buffer_[i];
         }
 
@@ -257,11 +263,17 @@ namespace nmtools::utl
 
         reference operator[](size_type i) noexcept
         {
+            #ifdef NMTOOLS_VERIF
+            NMTOOLS_VERIF_CHECK( ((nm_size_t)i >= (nm_size_t)size_), 3, i, size_ );
+            #endif // NMTOOLS_VERIF
             return buffer_[i];
         }
 
         const_reference operator[](size_type i) const noexcept
         {
+            #ifdef NMTOOLS_VERIF
+            NMTOOLS_VERIF_CHECK( ((nm_size_t)i >= (nm_size_t)size_), 3, i, size_ );
+            #endif // NMTOOLS_VERIF
             return buffer_[i];
         }
 
